@@ -3,6 +3,7 @@ package props
 import (
 	"bytes"
 	"fmt"
+	"reflect"
 
 	"github.com/contiv/libOpenflow/util"
 
@@ -184,6 +185,28 @@ func c13Eval(c *fw.Ctx, data any) {
 			return
 		}
 	}
+	c13HistoryIndependence(c, cs, kind)
+	// a value built and encoded in the previous case is an independent value: everything this case built, encoded and
+	// decoded since must have left it alone
+	if c13Prev.v != nil {
+		pp, _, _ := fw.Recover(func() {
+			b, _ := c13Prev.v.MarshalBinary()
+			if !bytes.Equal(b, c13Prev.enc) {
+				c.Violation(c13Prev.kind, "repeat", "earlier-value-changed", fmt.Sprintf("a value built and encoded in an earlier case (%d bytes) encodes differently (%d bytes) after other values were built, encoded and decoded", len(c13Prev.enc), len(b)))
+			}
+		})
+		_ = pp
+		c13Prev.v = nil
+	}
+	if cs.Mode != "dhcp" && cs.Mode != "lldp" {
+		fw.Recover(func() {
+			if v, err := buildValue(cs); err == nil && !isNil(v) {
+				if b, e := v.MarshalBinary(); e == nil {
+					c13Prev.v, c13Prev.enc, c13Prev.kind = v, append([]byte(nil), b...), kind
+				}
+			}
+		})
+	}
 	// children are not disturbed by their container being sized and encoded repeatedly
 	if cs.Mode != "dhcp" && cs.Mode != "lldp" {
 		p, pv, st := fw.Recover(func() {
@@ -200,6 +223,12 @@ func c13Eval(c *fw.Ctx, data any) {
 	if c.WantSample() && n >= 2 && n <= 4 {
 		c.Sample(map[string]any{"mode": cs.Mode, "recipe": m, "histories": len(hs), "example_history": "LELE"})
 	}
+}
+
+var c13Prev struct {
+	v    util.Message
+	enc  []byte
+	kind string
 }
 
 func c13Children(c *fw.Ctx, v util.Message, depth int) {
@@ -285,4 +314,112 @@ func c13Interfere(c *fw.Ctx) {
 		})
 	}
 	c.Count("interfering_decodes", int64(n))
+}
+
+// flipFields walks the object graph of v through exported fields and flips the low bit of a deterministic selection of
+// exported unsigned-integer fields (the same selection for the same seed and shape). Returns how many were flipped.
+func flipFields(v any, seed uint64) int {
+	r := prng.New(seed)
+	n := 0
+	seen := map[uintptr]bool{}
+	var walk func(rv reflect.Value, depth int)
+	walk = func(rv reflect.Value, depth int) {
+		if depth > 8 || !rv.IsValid() {
+			return
+		}
+		switch rv.Kind() {
+		case reflect.Ptr:
+			if rv.IsNil() || seen[rv.Pointer()] {
+				return
+			}
+			seen[rv.Pointer()] = true
+			walk(rv.Elem(), depth+1)
+		case reflect.Interface:
+			if !rv.IsNil() {
+				walk(rv.Elem(), depth+1)
+			}
+		case reflect.Struct:
+			for i := 0; i < rv.NumField(); i++ {
+				if !rv.Type().Field(i).IsExported() {
+					continue
+				}
+				f := rv.Field(i)
+				switch f.Kind() {
+				case reflect.Uint8, reflect.Uint16, reflect.Uint32, reflect.Uint64:
+					if f.CanSet() && r.Chance(1, 3) {
+						f.SetUint(f.Uint() ^ 1)
+						n++
+					}
+				default:
+					walk(f, depth+1)
+				}
+			}
+		case reflect.Slice:
+			if rv.Type().Elem().Kind() == reflect.Uint8 {
+				return
+			}
+			for i := 0; i < rv.Len() && i < 64; i++ {
+				e := rv.Index(i)
+				if e.Kind() == reflect.Struct && e.CanAddr() {
+					walk(e.Addr(), depth+1)
+				} else {
+					walk(e, depth+1)
+				}
+			}
+		}
+	}
+	walk(reflect.ValueOf(v), 0)
+	return n
+}
+
+// c13HistoryIndependence: what a value encodes to depends on its current field values only, not on whether it was
+// sized or encoded before they were set. One value is encoded, then edited, then encoded again; a twin is edited
+// the same way before its first encoding; both must give the same bytes and the same size.
+func c13HistoryIndependence(c *fw.Ctx, cs *c06Case, kind string) {
+	if cs.Mode == "dhcp" || cs.Mode == "lldp" {
+		return
+	}
+	type outcome struct {
+		enc      []byte
+		l        int
+		panicked bool
+		err      bool
+	}
+	run := func(encodeFirst bool) (o outcome, flips int) {
+		p, _, _ := fw.Recover(func() {
+			v, err := buildValue(cs)
+			if err != nil || isNil(v) {
+				o.err = true
+				return
+			}
+			if encodeFirst {
+				v.Len()
+				v.MarshalBinary()
+			}
+			flips = flipFields(v, c.Seed^uint64(c.Index)*0x9e3779b97f4a7c15)
+			o.l = int(v.Len())
+			b, e := v.MarshalBinary()
+			o.err = e != nil
+			o.enc = append([]byte(nil), b...)
+		})
+		o.panicked = p
+		return
+	}
+	a, flips := run(true)
+	b, _ := run(false)
+	if flips == 0 || a.err || b.err {
+		return
+	}
+	c.Count("history_independence_checks", 1)
+	switch {
+	case a.panicked != b.panicked:
+		c.Violation(kind, "repeat", "edited-after-encoding:panic", fmt.Sprintf("%d exported fields were edited; encoding the edited value panics only when it %s been encoded before the edit", flips, map[bool]string{true: "had", false: "had not"}[a.panicked]))
+	case a.panicked:
+	case a.l != b.l || !bytes.Equal(a.enc, b.enc):
+		off := 0
+		for off < len(a.enc) && off < len(b.enc) && a.enc[off] == b.enc[off] {
+			off++
+		}
+		c.Violation(kind, "repeat", "edited-after-encoding", fmt.Sprintf("%d exported fields were edited; the value that had been encoded before the edit now encodes to %d bytes (Len %d), an equal value edited before its first encoding to %d bytes (Len %d); first difference at offset %d\nencoded before edit: %s\nfresh:               %s", flips, len(a.enc), a.l, len(b.enc), b.l, off, window(a.enc, off), window(b.enc, off)))
+	}
 }
